@@ -1031,6 +1031,115 @@ def rtp_packet(version, padding, extension, marker, payload_type, seq, ts, ssrc,
 
 
 # =============================================================================
+# media payloads carried in RTP by A2DP
+# =============================================================================
+AAC_SAMPLING_FREQUENCIES = [96000, 88200, 64000, 48000, 44100, 32000, 24000, 22050, 16000, 12000, 11025, 8000, 7350]
+
+
+class Bits:
+    """MSB-first bit string"""
+
+    def __init__(self):
+        self.bits = []
+
+    def put(self, value: int, n: int):
+        assert 0 <= value < (1 << n), (value, n)
+        self.bits.append(format(value, f'0{n}b') if n else '')
+
+    def put_bytes(self, data: bytes):
+        self.bits.append(''.join(format(b, '08b') for b in data))
+
+    def done(self) -> bytes:
+        s = ''.join(self.bits)
+        s += '0' * (-len(s) % 8)                   # ByteAlign with zero bits
+        return bytes(int(s[i:i + 8], 2) for i in range(0, len(s), 8))
+
+
+def latm_payload_length_info(n: int) -> bytes:
+    """ISO/IEC 14496-3 Table 1.44 PayloadLengthInfo, frameLengthType 0:
+        MuxSlotLengthBytes = 0; do { tmp (8 bits); MuxSlotLengthBytes += tmp; } while (tmp == 255);
+    so n is written as n // 255 octets 0xFF followed by ONE octet n % 255 (which is 0 when n is a multiple of 255)."""
+    return b'\xff' * (n // 255) + bytes([n % 255])
+
+
+def latm_audio_mux_element(sampling_frequency_index, channel_configuration, payload: bytes,
+                           audio_object_type=2, buffer_fullness=0) -> bytes:
+    """RFC 6416 payload with muxConfigPresent=1: AudioMuxElement (ISO/IEC 14496-3 Table 1.41) carrying one
+    StreamMuxConfig (Table 1.42: audioMuxVersion 0, allStreamsSameTimeFraming 1, numSubFrames 0, numProgram 0,
+    numLayer 0, AudioSpecificConfig of Table 1.15 with a GASpecificConfig of three zero flags, frameLengthType 0,
+    latmBufferFullness, otherDataPresent 0, crcCheckPresent 0), the PayloadLengthInfo and the PayloadMux."""
+    b = Bits()
+    b.put(0, 1)                                # useSameStreamMux
+    b.put(0, 1)                                # audioMuxVersion
+    b.put(1, 1)                                # allStreamsSameTimeFraming
+    b.put(0, 6)                                # numSubFrames
+    b.put(0, 4)                                # numProgram
+    b.put(0, 3)                                # numLayer
+    b.put(audio_object_type, 5)                # AudioSpecificConfig
+    b.put(sampling_frequency_index, 4)
+    b.put(channel_configuration, 4)
+    b.put(0, 1)                                # GASpecificConfig: frameLengthFlag
+    b.put(0, 1)                                # dependsOnCoreCoder
+    b.put(0, 1)                                # extensionFlag
+    b.put(0, 3)                                # frameLengthType
+    b.put(buffer_fullness, 8)                  # latmBufferFullness
+    b.put(0, 1)                                # otherDataPresent
+    b.put(0, 1)                                # crcCheckPresent
+    b.put_bytes(latm_payload_length_info(len(payload)))
+    b.put_bytes(payload)
+    return b.done()
+
+
+def adts_frame(profile, sampling_frequency_index, channel_configuration, payload: bytes, mpeg2=False,
+               buffer_fullness=0x7FF) -> bytes:
+    """ISO/IEC 13818-7 / 14496-3 adts_fixed_header + adts_variable_header, protection_absent=1, one raw data block"""
+    b = Bits()
+    b.put(0xFFF, 12)                           # syncword
+    b.put(1 if mpeg2 else 0, 1)                # ID
+    b.put(0, 2)                                # layer
+    b.put(1, 1)                                # protection_absent
+    b.put(profile, 2)                          # profile_ObjectType (audio object type - 1)
+    b.put(sampling_frequency_index, 4)
+    b.put(0, 1)                                # private_bit
+    b.put(channel_configuration, 3)
+    b.put(0, 1)                                # original_copy
+    b.put(0, 1)                                # home
+    b.put(0, 1)                                # copyright_identification_bit
+    b.put(0, 1)                                # copyright_identification_start
+    b.put(len(payload) + 7, 13)                # aac_frame_length, header included
+    b.put(buffer_fullness, 11)
+    b.put(0, 2)                                # number_of_raw_data_blocks_in_frame
+    return b.done() + payload
+
+
+SBC_SAMPLING_FREQUENCIES = [16000, 32000, 44100, 48000]
+SBC_MONO, SBC_DUAL, SBC_STEREO, SBC_JOINT = 0, 1, 2, 3
+
+
+def sbc_frame_length(blocks, channel_mode, subbands, bitpool) -> int:
+    """A2DP 1.3 section 12.9 (the last term is rounded UP to whole octets)"""
+    channels = 1 if channel_mode == SBC_MONO else 2
+    n = 4 + (4 * subbands * channels) // 8
+    if channel_mode in (SBC_MONO, SBC_DUAL):
+        return n + -(-(blocks * channels * bitpool) // 8)
+    return n + -(-((subbands if channel_mode == SBC_JOINT else 0) + blocks * bitpool) // 8)
+
+
+def sbc_frame(rng, sf_index, blocks, channel_mode, allocation, subbands, bitpool) -> bytes:
+    """A2DP 12.9 frame header (syncword 0x9C; sampling_frequency(2) blocks(2) channel_mode(2) allocation_method(1)
+    subbands(1); bitpool; crc_check) followed by arbitrary audio octets up to the frame length"""
+    n = sbc_frame_length(blocks, channel_mode, subbands, bitpool)
+    h = bytes([0x9C, (sf_index << 6) | ((blocks // 4 - 1) << 4) | (channel_mode << 2) | (allocation << 1) | (1 if subbands == 8 else 0),
+               bitpool, rng.getrandbits(8)])
+    return h + rng.randbytes(n - 4)
+
+
+def sbc_media_payload(frames, fragmented=0, start=0, last=0) -> bytes:
+    """A2DP 12.8.1 media payload header (F S L RFA | number of frames (4)) + whole SBC frames"""
+    return bytes([(fragmented << 7) | (start << 6) | (last << 5) | len(frames)]) + b''.join(frames)
+
+
+# =============================================================================
 # advertising data (Core Vol 3 Part C 11, CSS Part A)
 # =============================================================================
 def ad_bytes(structs) -> bytes:
